@@ -1158,11 +1158,28 @@ class C11Executor(_verify.Executor):
             return isinstance(v, tuple) and depth < 3 and all(flat(y, depth + 1) for y in v)
         return flat(pyv)
 
+    # -- round 8: the builtin `format(x)` with ONE argument is by definition what the f-string field `{x}` evaluates
+    #    (`format(x, "")`): it gets the engine's f-string semantics instead of "unmodelled call, may raise anything", so a message
+    #    written as `"[" + format(source) + "]"` reads like the f-string it replaces.
+    def _format_one(self, n, st):
+        import ast as _ast
+        if not (isinstance(n.func, _ast.Name) and n.func.id == "format" and len(n.args) == 1 and not n.keywords
+                and not isinstance(n.args[0], _ast.Starred) and st.lookup("format") is None
+                and "format" not in self.module.functions and "format" not in self.module.assigns
+                and "format" not in self.module.imports and "format" not in self.module.classes):
+            return None
+        js = _ast.JoinedStr(values=[_ast.FormattedValue(value=n.args[0], conversion=-1, format_spec=None)])
+        _ast.copy_location(js, n)
+        _ast.copy_location(js.values[0], n)
+        return self.ev(js, st)
+
     def e_Call(self, n, st):
         try:
             r = self._upfront_sum(n, st)
             if r is None:
                 r = self._opaque_any(n, st)
+            if r is None:
+                r = self._format_one(n, st)
         except ops.Unsupported:
             raise
         except Exception as e:  # noqa -- not a shape read here: the engine decides
